@@ -18,7 +18,7 @@ ERROR awkward_NumpyArray_subrange_equal(
 
   for (int64_t i = 0;  i < length - 1;  i++) {
     leftlen = fromstops[i] - fromstarts[i];
-    for (int64_t ii = i + 1; ii < length - 1;  ii++) {
+    for (int64_t ii = i + 1; ii < length;  ii++) {
       rightlen = fromstops[ii] - fromstarts[ii];
       if (leftlen == rightlen) {
         differ = false;
@@ -27,6 +27,10 @@ ERROR awkward_NumpyArray_subrange_equal(
             differ = true;
             break;
           }
+        }
+        if (!differ) {
+          *toequal = true;
+          return success();
         }
       }
     }
